@@ -1140,6 +1140,10 @@ func runClientScenario(seed int64) *scenario {
 		scheme = "ws"
 	}
 	rawURL := scheme + "://" + user + host + path
+	if r.Intn(12) == 0 {
+		// no scheme at all, or one that only becomes http(s) by string surgery: never dialled
+		rawURL = g.pick("//"+host+path, host+"/chat", "/chat", "s://"+host+path, "s://"+host, "ttp://"+host, "://"+host)
+	}
 	d := &websocket.Dialer{}
 	var subs []string
 	if r.Intn(3) == 0 {
